@@ -1246,7 +1246,11 @@ class LiteralData(Packet):
     def __bytearray__(self):
         _bytes = bytearray()
         _bytes += super(LiteralData, self).__bytearray__()
-        _bytes += self.format.encode('latin-1')
+        # the format is a one-octet field (RFC 4880 5.9): anything longer or shorter would shift the fields behind it
+        fmt = self.format.encode('latin-1')
+        if len(fmt) != 1:
+            raise ValueError("the format of a literal data packet is one character, not {!r}".format(self.format))
+        _bytes += fmt
         # the length octet counts octets of the encoded name, and the codec is the one parse() used
         filename = self.filename.encode('latin-1' if self._filename_fallback else 'utf-8')
         _bytes += bytearray([len(filename)])
